@@ -82,7 +82,7 @@ pub fn check(rep: &Report) {
         let names = sc.names();
         let expect: BTreeMap<String, qv::CV> = model.fates.iter().map(|(n, f)| (names[n].clone(), match f { ModelFate::Done(v) => v.to_cv(&names), _ => unreachable!() })).collect();
         rep.distinct(sc.hash());
-        if i < 3 { rep.sample(json!({"scenario_source": src, "model_results": expect.iter().map(|(k, v)| (k.clone(), v.show())).collect::<BTreeMap<_, _>>()})); }
+        if rep.want_sample() { rep.sample(json!({"scenario_source": src, "model_results": expect.iter().map(|(k, v)| (k.clone(), v.show())).collect::<BTreeMap<_, _>>()})); }
         rep.count("scenarios", 1);
         rep.count("processes", sc.nodes.len() as u64);
         let scheds = sched_variants(&mut rng, n_sched);
